@@ -9,10 +9,10 @@
    of the remaining tokens alone, and the statement it returns is the one whose EXPLAIN text the
    printer model produces ([print_model]), so equal statements have equal EXPLAIN output.
 
-   With SelectCoreDelim.parse_model_delimited_partial the premise [ps_delimited] of the driver
-   theorems holds for [model_ps] on every token list that the model accepts alone without error
-   (outside the [paren_skip_closed] exception); instantiating Driver.DriverProof.script_parse /
-   script_is_concat_of_singles closes C06 on the fragment. *)
+   With SelectCoreDelim.parse_model_delimited the premise [ps_delimited] of the driver theorems
+   holds for [model_ps] on EVERY token list that the model accepts alone without error;
+   instantiating Driver.DriverProof.script_parse / script_is_concat_of_singles closes C06 on the
+   fragment, with no side condition. *)
 From Coq Require Import List NArith Bool Lia.
 From DC Require Import Base.Item Gen.TokenTable.
 From DC Require Import Select.SelectParseModel Select.SelectPrintModel Select.SelectCoreDelim.
@@ -29,9 +29,9 @@ Definition model_ps (ts : list item) : option query * list item * list err :=
   | _ => (None, [], [])            (* outside the fragment: never reached on the segments below *)
   end.
 
-(* accepted alone, completely, without error, and not an unclosed "( junk" statement *)
+(* accepted alone: completely and without error *)
 Definition accepted (ts : list item) (q : query) : Prop :=
-  parse_model ts = Ok (Some q, [], []) /\ paren_skip_closed ts = true.
+  parse_model ts = Ok (Some q, [], []).
 
 Lemma boundary_cases : forall rest, DP.boundary rest = true -> rest = [] \/ tok_at rest = T_SEMICOLON.
 Proof.
@@ -39,17 +39,17 @@ Proof.
   apply N.eqb_eq in H. exact H.
 Qed.
 
-Theorem model_ps_delimited_partial : forall ts q,
+Theorem model_ps_delimited : forall ts q,
   accepted ts q -> DP.ps_delimited model_ps ts (Some q) [].
 Proof.
-  intros ts q [H Hskip]. split; [|split].
+  intros ts q H. unfold accepted in H. split; [|split].
   - intros ->. vm_compute in H. discriminate H.
   - destruct ts as [|i r]; [reflexivity|]. cbn [DM.cur_is]. destruct (it_tok i =? T_SEMICOLON) eqn:E; [|reflexivity].
     exfalso. apply N.eqb_eq in E.
     unfold parse_model, parse_model_fuel, parse_statement, parse_statement_raw in H.
     cbv beta zeta delta [cur_tok toks tok_at] in H. cbn iota in H. rewrite E in H. vm_compute in H. discriminate H.
   - intros rest Hb. unfold model_ps.
-    rewrite (parse_model_delimited_partial ts (Some q) rest Hskip (boundary_cases rest Hb) H). reflexivity.
+    rewrite (parse_model_delimited ts (Some q) rest (boundary_cases rest Hb) H). reflexivity.
 Qed.
 
 (* ------------------------------------------------------------------------------------------ *)
@@ -67,7 +67,7 @@ Lemma frag_segments_delimited : forall mk segs,
 Proof.
   intros mk segs H. unfold DP.segs_delimited. induction H as [|g r Hg Hr IH]; constructor; [|exact IH].
   destruct Hg as (q & Hres & Herr & Hacc). rewrite Hres, Herr.
-  apply DP.ps_delimited_delimited. apply model_ps_delimited_partial. exact Hacc.
+  apply DP.ps_delimited_delimited. apply model_ps_delimited. exact Hacc.
 Qed.
 
 Lemma frag_script_errs : forall segs, Forall frag_segment segs -> DP.script_errs segs = [].
@@ -78,7 +78,7 @@ Qed.
 
 (* s1 ; s2 ; ... ; sn with EVERY placement of extra semicolons: the driver returns the statements
    that the segments parse to alone, in order, and no error *)
-Theorem select_core_script_partial :
+Theorem select_core_script :
   forall (mk : query -> list query -> query) (ctx_err : DM.ctx_error) (read_failed : bool)
          (pre : list item) (segs : list (DP.segment query err)),
     DP.all_semi pre -> DP.seps_ok segs -> Forall frag_segment segs ->
@@ -92,7 +92,7 @@ Proof.
 Qed.
 
 (* "exactly the statements obtained by parsing each si on its own, in the same order" *)
-Theorem select_core_script_concat_partial :
+Theorem select_core_script_concat :
   forall (mk : query -> list query -> query) (ctx_err : DM.ctx_error) (read_failed : bool)
          (pre : list item) (segs : list (DP.segment query err)),
     DP.all_semi pre -> DP.seps_ok segs -> Forall frag_segment segs ->
@@ -104,7 +104,7 @@ Proof.
 Qed.
 
 (* identical EXPLAIN output: the statements are equal, and the EXPLAIN text is a function of the statement *)
-Theorem select_core_script_explain_partial :
+Theorem select_core_script_explain :
   forall (mk : query -> list query -> query) (ctx_err : DM.ctx_error) (read_failed : bool)
          (pre : list item) (segs : list (DP.segment query err)),
     DP.all_semi pre -> DP.seps_ok segs -> Forall frag_segment segs ->
@@ -113,20 +113,20 @@ Theorem select_core_script_explain_partial :
                          (DM.stmts_of (DP.full model_ps mk ctx_err read_failed (DP.sg_toks g)))) segs.
 Proof.
   intros mk ctx_err read_failed pre segs Hpre Hsep Hseg.
-  rewrite (select_core_script_concat_partial mk ctx_err read_failed pre segs Hpre Hsep Hseg).
+  rewrite (select_core_script_concat mk ctx_err read_failed pre segs Hpre Hsep Hseg).
   induction segs as [|g r IH]; [reflexivity|]. cbn [flat_map]. rewrite map_app. f_equal.
   inversion Hseg; subst. destruct Hsep as [_ [_ Hsep']]. apply IH; assumption.
 Qed.
 
 (* the two-statement instance:  s1 ;...; s2  *)
-Corollary select_core_two_statements_partial :
+Corollary select_core_two_statements :
   forall (mk : query -> list query -> query) (ctx_err : DM.ctx_error) (read_failed : bool)
          (s1 sep s2 : list item) (q1 q2 : query),
     accepted s1 q1 -> accepted s2 q2 -> DP.all_semi sep -> sep <> [] ->
     DP.full model_ps mk ctx_err read_failed (s1 ++ sep ++ s2) = DM.finish read_failed [q1; q2] [].
 Proof.
   intros mk ctx_err read_failed s1 sep s2 q1 q2 H1 H2 Hsep Hne.
-  pose proof (select_core_script_partial mk ctx_err read_failed [] [seg s1 q1 sep; seg s2 q2 []]) as T.
+  pose proof (select_core_script mk ctx_err read_failed [] [seg s1 q1 sep; seg s2 q2 []]) as T.
   cbn [DP.join seg DP.sg_toks DP.sg_sep app DP.script_stmts flat_map DP.sg_res DM.opt_list] in T.
   rewrite !app_nil_r in T. apply T.
   - reflexivity.
